@@ -404,18 +404,37 @@ func checkIDListSymmetry(p *Prog, r *Report) {
 			if k, ok := constInt(c.Common().Args[1]); !ok || k != 0 {
 				return
 			}
-			gd := ""
-			for _, f := range FactsAt(c) {
-				if call, ok := f.Cond.(*ssa.Call); ok && f.Val {
-					switch calleeName(call) {
-					case "(*" + pkgOpts + ".Options).PreserveUid":
-						gd += "U"
-					case "(*" + pkgOpts + ".Options).PreserveGid":
-						gd += "G"
+			guardAt := func(in ssa.Instruction) string {
+				gd := ""
+				for _, f := range FactsAt(in) {
+					if call, ok := f.Cond.(*ssa.Call); ok && f.Val {
+						switch calleeName(call) {
+						case "(*" + pkgOpts + ".Options).PreserveUid":
+							gd += "U"
+						case "(*" + pkgOpts + ".Options).PreserveGid":
+							gd += "G"
+						}
 					}
 				}
+				return gd
 			}
-			snd = append(snd, site{c.Pos(), gd})
+			if gd := guardAt(c); gd != "" {
+				snd = append(snd, site{c.Pos(), gd})
+				return
+			}
+			// a per-list helper (writeIdList): one list per call site, guarded there
+			nSites := 0
+			for _, e := range g.In[u] {
+				cs, ok := e.Site.(ssa.CallInstruction)
+				if !ok || e.Escape || cs.Common().StaticCallee() != u || isTestSupport(pkgPathOfFunc(e.From)) {
+					continue
+				}
+				nSites++
+				snd = append(snd, site{cs.Pos(), guardAt(cs)})
+			}
+			if nSites == 0 {
+				snd = append(snd, site{c.Pos(), ""})
+			}
 		})
 	}
 	sort.Slice(snd, func(i, j int) bool { return snd[i].pos < snd[j].pos })
